@@ -58,7 +58,10 @@ fn pipeline(kind: &str, chars: &PathBuf, missp: &PathBuf) -> TrainPipelineConfig
     };
     TrainPipelineConfig {
         preprocessing,
-        task: TrainTaskConfig::Generation(false, tok_cfg(), false, Some(" >> ".to_string())),
+        // "wstask": the whitespace-correction task, which fails for an item whose input and target differ in more than
+        // whitespace (the loader logs the error and drops the item behind the pipeline)
+        task: if kind == "wstask" { TrainTaskConfig::WhitespaceCorrection(true, tok_cfg()) }
+              else { TrainTaskConfig::Generation(false, tok_cfg(), false, Some(" >> ".to_string())) },
         postprocessing,
     }
 }
@@ -85,7 +88,11 @@ pub fn exec(case: &Value) -> Vec<Value> {
             // (realistic spelling corruption then chooses among the parts)
             let text = format!("w{}x{} {} {} {} {} {}-{}-{}", k, l, VOCAB[(k + l) % 8], VOCAB[(3 * l + 1) % 8], VOCAB[(l * l + k) % 8], VOCAB[(5 * k + l + 2) % 8],
                                VOCAB[(k + l) % 3], VOCAB[(k + l + 1) % 3], VOCAB[(2 * l + k) % 3]);
-            if bad.contains(&(k, l)) {
+            if bad.contains(&(k, l)) && pkind == "wstask" {
+                // a line that parses but fails in the pipeline (input and target differ in a letter): logged and dropped
+                // behind the pipeline; it keeps its place in the enumeration
+                s.push_str(&format!("{{\"input\": \"{text} q\", \"target\": \"{text} r\"}}\n"));
+            } else if bad.contains(&(k, l)) {
                 // a line that cannot be parsed: the loader logs it and goes on; it keeps its place in the enumeration
                 s.push_str("{\"input\": \n");
             } else {
@@ -120,6 +127,17 @@ pub fn exec(case: &Value) -> Vec<Value> {
             let limit = run.get("limit").and_then(|x| x.as_i64()).and_then(|v| if v < 0 { None } else { Some(v as usize) });
             let threads = get_u(run, "threads") as u8;
             let shuffle = get_bool(run, "shuffle");
+            // `hold_ms`: the worker that processed the first item of this run is held that long before it may hand the item
+            // over (guarded schedule hook): the batches must still come out as in every other run
+            let hold = get_u(run, "hold_ms") as u64;
+            if hold > 0 {
+                let done = std::sync::atomic::AtomicBool::new(false);
+                text_utils::verif::install(Some(std::sync::Arc::new(move |_t, p, idx, _k| {
+                    if p == text_utils::verif::Point::AfterCompute && idx == 0 && !done.swap(true, std::sync::atomic::Ordering::SeqCst) {
+                        std::thread::sleep(std::time::Duration::from_millis(hold));
+                    }
+                })));
+            }
             let r = guard(|| {
                 train_loader(files.clone(), pipeline(pkind, &chars, &missp), strategy, threads, get_u(run, "buffer"),
                     get_u(run, "batch_limit"), if get_str(run, "ltype") == "padded" { BatchLimitType::PaddedItemSize } else { BatchLimitType::BatchSize },
@@ -127,6 +145,9 @@ pub fn exec(case: &Value) -> Vec<Value> {
                     if world > 1 || get_bool(run, "distributed") { Some((rank, world)) } else { None }, epoch, get_u(run, "ff"), usize::MAX)
             });
             quiet_panics(); // Pipe::new installs a process-exiting panic hook
+            if hold > 0 {
+                text_utils::verif::install(None);
+            }
             let mut rst = "ok".to_string();
             let mut batches = vec![];
             let mut min_items = -1i64;
@@ -140,7 +161,10 @@ pub fn exec(case: &Value) -> Vec<Value> {
                             // identity: "w<k>x<l> ..."
                             let id = tgt.split(' ').next().unwrap_or("");
                             let (f, l) = id.trim_start_matches('w').split_once('x').map(|(a, b)| (a.parse::<i64>().unwrap_or(-1), b.parse::<i64>().unwrap_or(-1))).unwrap_or((-1, -1));
-                            let ids = match &it.input { TrainTaskInput::Generation { token_ids, labels, .. } => format!("{token_ids:?}{labels:?}"), _ => String::new() };
+                            let ids = match &it.input {
+                                TrainTaskInput::Generation { token_ids, labels, .. } | TrainTaskInput::SequenceClassification { token_ids, labels, .. } => format!("{token_ids:?}{labels:?}"),
+                                _ => String::new(),
+                            };
                             b.push(json!({"f": f, "l": l, "inp": intern(it.data.verif_input().to_string()), "tgt": intern(tgt), "tid": intern(ids)}));
                         }
                         batches.push(Value::Array(b));
